@@ -667,6 +667,10 @@ def oracle(case):
     v = _oracle_purity(S, extra)
     if v:
         return v
+    if case.get("big") is None and int(signature(case)[:4], 16) % 2 == 0:
+        v = _oracle_api(S, extra)
+        if v:
+            return v
     with warnings.catch_warnings():
         warnings.simplefilter("ignore")
         f = PDBFile()
@@ -675,7 +679,7 @@ def oracle(case):
         except Exception as e:  # noqa: BLE001
             if not hard and not soft:
                 v.append(("C07/refused/within-limits", f"{type(e).__name__}: {e} for a structure within the PDB limits"))
-            return v
+            return v + _oracle_refused_write(S, extra)
         recs = [l for l in f.lines if l.startswith(("ATOM", "HETATM"))]
         n = len(S["atoms"])
         # --- CRYST1 record: standard columns (PDB v3.3: a 7-15, b 16-24, c 25-33, alpha 34-40, beta 41-47, gamma 48-54)
@@ -930,6 +934,195 @@ def _oracle_purity(S, extra):
             if _snapshot(first) != _snapshot(second):
                 return [("C07/purity/get_structure-not-repeatable", f"two get_structure({kwargs}) calls on the same file differ")]
     return v
+
+
+def _tmpdir():
+    from common import paths
+    d = os.path.join(paths.BUILD, "tmp-C07")
+    os.makedirs(d, exist_ok=True)
+    return d
+
+
+def _respell(arr, S, how, np):
+    """the same structure with annotations / coordinates given in another NumPy spelling"""
+    a = arr.copy()
+    f = S["flags"]
+    if how == "float32-annotations":
+        if f["b"]:
+            a.set_annotation("b_factor", a.b_factor.astype(np.float32))
+        if f["occ"]:
+            a.set_annotation("occupancy", a.occupancy.astype(np.float32))
+    elif how == "narrow-ints":
+        if f["q"]:
+            a.set_annotation("charge", a.charge.astype(np.int8))
+        if f["id"]:
+            ids = a.atom_id
+            for dt in (np.int8, np.uint8, np.int16, np.uint16, np.int32, np.uint32):
+                if ids.min() >= np.iinfo(dt).min and ids.max() <= np.iinfo(dt).max:
+                    a.set_annotation("atom_id", ids.astype(dt))
+                    break
+        a.res_id = a.res_id.astype(np.int32)
+    elif how == "layout":
+        c64 = np.asfortranarray(a.coord.astype(np.float64))
+        a.coord = c64
+        wide = np.zeros((len(a.res_id), 2), dtype=np.int64)
+        wide[:, 0] = a.res_id
+        a.res_id = wide[:, 0]                      # strided view
+        ro = a.chain_id.copy()
+        ro.setflags(write=False)
+        a.chain_id = ro
+        a.atom_name = a.atom_name.astype("U12")
+        a.element = list(a.element)
+        if f["b"]:
+            a.set_annotation("b_factor", a.b_factor.astype(">f8"))     # byte-swapped
+        if f["q"]:
+            a.set_annotation("charge", a.charge.astype(">i4"))
+        if a.box is not None:
+            a.box = np.asfortranarray(a.box)     # same dtype: the cell trigonometry is computed in the precision of the box
+    return a
+
+
+def _oracle_api(S, extra):
+    """the same value in another spelling, every entry level and the less-used entry points of PDBFile / the pdb package"""
+    import numpy as np
+    import biotite.structure.io.pdb as pdb
+    from biotite.structure.io.pdb import PDBFile
+    from collections import namedtuple
+    v = []
+    f = S["flags"]
+    # annotations hold float32-exact values so that a float32 spelling denotes the same numbers
+    S32 = dict(S, atoms=[dict(a, bf=f32(a["bf"]) if math.isfinite(a["bf"]) else a["bf"],
+                              occ=f32(a["occ"]) if math.isfinite(a["occ"]) else a["occ"]) for a in S["atoms"]])
+    with warnings.catch_warnings():
+        warnings.simplefilter("ignore")
+        with np.errstate(all="ignore"):
+            base = build_array(S32, extra)
+            f0 = PDBFile()
+            try:
+                f0.set_structure(base, hybrid36=f["h36"])
+            except Exception as e:  # noqa: BLE001
+                ref = "ERR:" + type(e).__name__
+            else:
+                ref = list(f0.lines)
+            # --- 3. same value, another spelling (writer)
+            for how in ("float32-annotations", "narrow-ints", "layout"):
+                for flag in (f["h36"], np.bool_(f["h36"]), int(f["h36"])):
+                    g = PDBFile()
+                    try:
+                        if how == "layout":
+                            pdb.set_structure(g, _respell(base, S32, how, np), flag)       # wrapper function, positional
+                        else:
+                            g.set_structure(_respell(base, S32, how, np), hybrid36=flag)
+                        got = list(g.lines)
+                    except Exception as e:  # noqa: BLE001
+                        got = "ERR:" + type(e).__name__
+                    if got != ref:
+                        return [(f"C07/api/spelling/{how}", f"set_structure with {how} (hybrid36={flag!r}) gives "
+                                 f"{got if isinstance(got, str) else 'another file'}, the plain spelling gives {ref if isinstance(ref, str) else 'a file'}")]
+            if isinstance(ref, str):
+                return v
+            # --- 7./4. entry points and levels of the reader
+            M, n = len(S["models"]), len(S["atoms"])
+            text = "\n".join(ref) + "\n"
+            path = os.path.join(_tmpdir(), f"t{os.getpid()}.pdb")
+            f0.write(path)
+            sio = io.StringIO()
+            f0.write(sio)
+            PDBFile.write_iter(path + ".iter", ref)
+            readers = {"path": PDBFile.read(path), "stringio": PDBFile.read(io.StringIO(sio.getvalue())),
+                       "write_iter": PDBFile.read(path + ".iter"), "copy": f0.copy(), "copy-of-read": PDBFile.read(io.StringIO(text)).copy()}
+            if [l.rstrip("\n") for l in PDBFile.read_iter(path)] != ref:
+                return [("C07/api/read_iter", "read_iter does not return the written lines")]
+            _setup_ccd()
+            fields = ["atom_id", "b_factor", "occupancy", "charge"]
+            want = _snapshot(PDBFile.read(io.StringIO(text)).get_structure(extra_fields=fields, include_bonds=f["bonds"]))
+            for name, fr in readers.items():
+                try:
+                    got = _snapshot(fr.get_structure(None, "first", tuple(reversed(fields)), f["bonds"]))
+                except Exception as e:  # noqa: BLE001
+                    got = "ERR:" + type(e).__name__
+                # order of extra_fields decides the order of the annotations only
+                if isinstance(got, str) or {k: got[k] for k in sorted(got)} != {k: want[k] for k in sorted(want)}:
+                    return [(f"C07/api/reader-entry/{name}", f"reading through {name} differs from reading the text: {got if isinstance(got, str) else 'other content'}")]
+            cp = f0.copy()
+            cp.lines.append("REMARK   1 x")
+            if list(f0.lines) != ref:
+                return [("C07/api/copy-shares-lines", "changing the copy changed the original")]
+            fr = readers["stringio"]
+            if not (pdb.get_model_count(fr) == fr.get_model_count() == M):
+                return [("C07/api/get_model_count", f"{pdb.get_model_count(fr)} / {fr.get_model_count()} for {M} models")]
+            stack = fr.get_structure(extra_fields=fields)
+            if fr.get_coord().tobytes() != stack.coord.tobytes() or fr.get_coord().shape != (M, n, 3):
+                return [("C07/api/get_coord", "get_coord() differs from get_structure().coord")]
+            if fr.get_b_factor().shape != (M, n) or any(fr.get_b_factor()[m].tolist() != [float(np.float32(x)) for x in stack.b_factor] for m in range(M)):
+                return [("C07/api/get_b_factor", "get_b_factor() differs from the b_factor annotation")]
+            for k in range(1, M + 1):
+                for kk in (k, k - M - 1):
+                    for spelled in (kk, np.int64(kk), np.int8(kk), np.int32(kk)) + ((np.uint8(kk),) if kk > 0 else ()):
+                        one = pdb.get_structure(fr, spelled, "first", fields, False)
+                        if one.coord.tobytes() != stack.coord[k - 1].tobytes() or fr.get_coord(model=spelled).tobytes() != stack.coord[k - 1].tobytes() \
+                                or fr.get_b_factor(spelled).tolist() != [float(np.float32(x)) for x in stack.b_factor]:
+                            return [("C07/api/model-argument", f"model={spelled!r} ({type(spelled).__name__}) of {M} is not model {k}")]
+            for single in fields:
+                st1 = fr.get_structure(extra_fields=[single])
+                if getattr(st1, single).tolist() != getattr(stack, single).tolist():
+                    return [("C07/api/extra_fields", f"extra_fields=[{single!r}] differs from asking for all four")]
+            if fr.get_structure(extra_fields=None).get_annotation_categories() != fr.get_structure().get_annotation_categories():
+                return [("C07/api/extra_fields", "extra_fields=None differs from the default")]
+            # --- 2. a refused call changes nothing
+            lines0 = list(fr.lines)
+            for bad in ({"model": 0}, {"model": M + 1}, {"model": -M - 1}, {"altloc": "bogus"}, {"extra_fields": ["bogus"]}, {"model": M + 1, "altloc": "all"}):
+                try:
+                    fr.get_structure(**bad)
+                except Exception:  # noqa: BLE001
+                    pass
+                else:
+                    return [("C07/api/bad-argument-accepted", f"get_structure({bad}) did not raise")]
+                if list(fr.lines) != lines0 or _snapshot(fr.get_structure(extra_fields=fields)) != _snapshot(stack):
+                    return [("C07/api/refused-read-changes-file", f"after the refused get_structure({bad}) the file reads differently")]
+            # --- space group of a written box
+            if S.get("box") is not None and ref and ref[0].startswith("CRYST1"):
+                SG = namedtuple("SpaceGroupInfo", ["space_group", "z_val"])
+                sg = fr.get_space_group()
+                if (sg.space_group.strip(), sg.z_val) != ("P 1", 1):
+                    return [("C07/api/space-group", f"written CRYST1 gives space group {sg}")]
+                box0 = fr.get_structure().box.tobytes()
+                fr.set_space_group(SG("P 21 21 21", 4))
+                sg = fr.get_space_group()
+                if (sg.space_group.strip(), sg.z_val) != ("P 21 21 21", 4) or any(len(l) != 80 for l in fr.lines if l.startswith("CRYST1")) \
+                        or fr.get_structure().box.tobytes() != box0:
+                    return [("C07/api/set_space_group", "set_space_group changes the box or the record length, or is not read back")]
+    return v
+
+
+def _oracle_refused_write(S, extra):
+    """a refused set_structure leaves a used PDBFile object as it was, and the next valid call behaves as on a fresh object"""
+    from biotite.structure.io.pdb import PDBFile
+    good = _one(f_b=True, bf=1.5)
+    good["models"] = [[[1.0, 2.0, 3.0]], [[4.0, 5.0, 6.0]]]
+    with warnings.catch_warnings():
+        warnings.simplefilter("ignore")
+        f = PDBFile()
+        f.set_structure(build_array(good, {}))
+        lines0 = list(f.lines)
+        snap0 = _snapshot(f.get_structure(extra_fields=["b_factor"]))
+        arr = build_array(S, extra)
+        before = _snapshot(arr)
+        try:
+            f.set_structure(arr, hybrid36=S["flags"]["h36"])
+        except Exception:  # noqa: BLE001
+            if _snapshot(arr) != before:
+                return [("C07/purity/refused-write-mutates-input", "the refused structure was changed")]
+            try:
+                ok = list(f.lines) == lines0 and _snapshot(f.get_structure(extra_fields=["b_factor"])) == snap0 and f.get_model_count() == 2
+            except Exception as e:  # noqa: BLE001
+                ok = False
+            if not ok:
+                return [("C07/purity/refused-write-changes-file", "after a refused set_structure the PDBFile object no longer holds its old content")]
+            f.set_structure(build_array(good, {}))
+            if list(f.lines) != lines0:
+                return [("C07/purity/refused-write-changes-file", "set_structure after a refused one differs from a fresh object")]
+    return []
 
 
 def _oracle_alt(case):
